@@ -362,8 +362,10 @@ def items(tier):
     steps = STEPS_QUICK if tier == 'quick' else STEPS_THOROUGH
     maxlen = 6 if tier == 'quick' else 7         # observations
     out = []
-    for start in STARTS:
+    for ci, start in enumerate(STARTS):
         for n in range(1, maxlen):
+            if tier == 'quick' and n == maxlen - 1 and ci >= 2:
+                continue          # quick: the longest curves on two of the four calendars (all four in thorough)
             for seq in itertools.product(steps, repeat=n):
                 out.append({'start': start.isoformat(), 'steps': list(seq)})
     return out
